@@ -58,8 +58,9 @@ func makeURLKey(u *url.URL) string {
 	base, _ := url.Parse(u.Scheme + "://" + u.Host)
 	normalized := base.ResolveReference(u)
 
-	// RFC 3986 §6.2.2.1: Scheme is lowercased (already done by [url.Parse]).
-	scheme := normalized.Scheme
+	// RFC 3986 §6.2.2.1: Scheme is lowercased ([url.Parse] does that, but a URL
+	// built by hand keeps the spelling it was given).
+	scheme := strings.ToLower(normalized.Scheme)
 
 	host, port := splitHostPort(normalized.Host)
 	defaultP := defaultPort(scheme)
